@@ -893,6 +893,11 @@ class Model:
                         # This algebraic state must now become a differentiated state.
                         states[expr.name()] = alg_states.pop(expr.name())
                         der_sym = ca.MX.sym("der({})".format(expr.name()))
+                        # The new derivative has the shape of its state; a later
+                        # pass (e.g. vector expansion) looks it up on the symbol
+                        der_sym._modelica_shape = getattr(
+                            states[expr.name()].symbol, "_modelica_shape", ((None,),)
+                        )
                         der_states[expr.name()] = Variable(der_sym, float)
                         return der_sym
                     else:
